@@ -89,6 +89,50 @@ CLAIMS = {
          "DESIGN.md §4 C03"),
 }
 
+# Additions after the unseen batches 3 and 4 (DESIGN.md §5.2, §5.3): (technique suffix, decided suffix)
+ADD = {
+ "C01": ("hash-provenance rule (md5.New -> TeeReader -> copy -> Sum order), drain-before-Sum rule for HashReader, store/delete ordering rule, map-rooted-at-backend rule",
+         "the stored ETag is hex(Sum()) of an md5 hash that is the TeeReader writer of the copied stream, finalised after the copy; a HashReader's Sum() is taken only after it was copied to its end; in-place metadata replacement deletes before it stores; no per-process maps hang off the backend struct."),
+ "C02": ("E-TIME direction rules for expiry and clock skew; no-map rule for the rebuilt request; map-of-struct write-back rule in the IAM cache",
+         "a presigned URL is refused as expired only on the edge now > date+expires and the request date is refused on both sides of the skew window; the request rebuilt for verification collects query arguments in no map; the IAM cache stores an updated account back."),
+ "C03": ("table agreement Effect.Validate vs evaluator; policy-decides-alone rule in VerifyAccess; trailing-* guard for prefix matching",
+         "with a policy present VerifyAccess returns VerifyBucketPolicy's verdict unchanged and never reaches the ACL check; Validate accepts exactly the effects the evaluator knows."),
+ "C04": ("substring-ancestry rule (each returned piece is cut out of a validated value)",
+         "every string ParseCopySource returns is cut out of a value that itself went through IsOpaquePath/IsOpaqueId."),
+ "C05": ("helper forwarding of the temp-file descriptor; no-removal-before-link rule in uploading publishers; exclusive-create flag rule over all backend packages",
+         "helpers forwarding a *os.File to StoreAttribute obey the same before/after-link rules; no removal of the destination or its versions before the body was received; every writing os.OpenFile creates with O_EXCL and never truncates."),
+ "C11": ("same additions as C05 + delete ordering (data before metadata) + directory-entry rule for upload listing",
+         "DeleteObject removes metadata only after the data; ListMultipartUploads lists directory entries only; the C05 additions."),
+ "C06": ("checksum-table completeness against the input struct's fields (PutObject, UploadPart); chunk-reader end-of-stream rules imported from C12; drain-before-Sum",
+         "both checksum tables have a row for every Checksum<ALG> input field paired with its own hash type; C12's end-of-stream and signature rules hold for the readers uploads pass through."),
+ "C07": ("must-cut rules on every append of the walk callbacks (prefix, marker); skipdirs test on the walk root; versioning-independence of the delete-marker filter",
+         "every appended key passed a prefix test and a marker test (files and explicit directory objects, Walk and WalkVersions); a walk root derived from the prefix is tested against skipdirs; the delete-marker filter does not depend on the versioning status."),
+ "C08": ("sibling cross-check of the scoutfs completion; exemption-by-position rule",
+         "the scoutfs CompleteMultipartUpload passes the same validation/cleanup/part-selection rules; the minimum-size exemption is by list position."),
+ "C09": ("attribute-copy completeness of createObjVersion; preallocation-size origin rule",
+         "the version copy stores every attribute it read and is preallocated with the size of the existing object's stat."),
+ "C10": ("E-TIME direction rules for retain-until comparisons; loop-exit rule; same-target rule; named-error-code rule",
+         "retention blocks while retain-until > now and past dates are refused (direction only); no allow verdict from inside the per-object loop; the judged retention is read from the object that is written; lookup errors are tolerated only for NoSuchKey / NoSuchObjectLockConfiguration."),
+ "C12": ("interprocedural raw-io.EOF summary over repository callees",
+         "a Read method never returns the error of a helper that can carry the inner stream's io.EOF unmapped."),
+ "C13": ("ownership rule for the file behind a ranged body",
+         "FileSectionReadCloser's methods use the file for Close only."),
+ "C14": ("policy-decides-alone rule shared with C03; Effect table agreement",
+         "Validate accepts exactly the effects isAllowed switches on; VerifyAccess hands back the policy verdict unchanged."),
+ "C15": ("who-may-call rule over the middleware package",
+         "no middleware calls a mutating backend method."),
+ "C16": ("result-origin rule for the ListBuckets token; independence of the grantee append from the account cache",
+         "the ListBuckets continuation token is read back from the result list; UpdateACL appends every grant of the request."),
+ "C17": ("failure-edge must-pass rule for the store rollback; callback return rule; map write-back rule; E-TIME direction of cache expiry",
+         "a refused or failed update rewrites the store with the data read; callbacks never return (nil, nil); cache updates are stored back and only for existing entries; a cached account is served only while exp > now."),
+ "C18": ("result-field forwarding from same-named SDK output fields; named-error-code rule for the swallowed ACL errors; nil-only-when-empty rule; frozen client configuration",
+         "result fields come from the same-named SDK output field; GetBucketAcl swallows only NoSuchTagSet/NotImplemented; an input field is dropped only when itself empty; the SDK http.Client has no Timeout."),
+ "C19": ("exhaustiveness of multi-way EventType comparisons; connection-cap/close pairing for the webhook",
+         "a switch over event types names them all; the webhook transport has no connection cap while responses are left open."),
+ "C20": ("comma-ok rule for Locals in loggers/response helpers; nilable-helper dereference rule; read-lock/write-lock upgrade rule; store rollback rule shared with C17",
+         "audit loggers read Locals comma-ok; results of helpers that can return nil are nil-tested before dereference; no write-locking method is called under the read lock of the same mutex."),
+}
+
 NOT_YET = "check for this property is not implemented yet in this snapshot of /verif (work in progress; see DESIGN.md §4 for the planned static rules)"
 
 NA = {}
@@ -101,6 +145,9 @@ def main():
         pid = p['id']
         if pid in CLAIMS:
             tech, decided, notdecided, ref = CLAIMS[pid]
+            if pid in ADD:
+                tech = tech + "; added after unseen batches: " + ADD[pid][0]
+                decided = decided + " Added after unseen batches (DESIGN.md 5.2/5.3): " + ADD[pid][1]
             checks.append({
                 "property_id": pid,
                 "quick_cmd": f"/verif/bin/vgwsa check -prop {pid} -tier quick",
@@ -132,7 +179,7 @@ def main():
             "name": "vgwsa",
             "path": "/verif/sa",
             "serves_properties": sorted(CLAIMS),
-            "kind_free_text": "repository-specific static analyser (go/packages + go/types + go/ssa, x/tools v0.29.0): cut-reachability guard rules, value-origin slices, route/table extraction, who-may-call; loads /repo's working tree on every run",
+            "kind_free_text": "repository-specific static analyser (go/packages + go/types + go/ssa, x/tools v0.29.0): cut-reachability guard rules, value-origin slices, route/table extraction, who-may-call, reader typestate, zone abstract interpretation of loop-free integer code (E-ZONE), clock-comparison normal forms (E-TIME), compiler bounds-check listing; loads /repo's working tree on every run",
         }],
         "checks": checks,
         "not_applicable": na,
